@@ -35,6 +35,8 @@ type inliner struct {
 	counter   int
 	Inlined   []string
 	norm      *normaliser // purity oracle
+	hasDefer  map[*types.Func]bool
+	tail      map[ast.Stmt]bool // statements in tail position of the function being rewritten
 }
 
 // FuncInventory lists "pkgpath.Func" / "pkgpath.Type.Method" for all first-party declarations.
@@ -52,7 +54,7 @@ func (p *Program) FuncInventory() []string {
 // InlineNewHelpers inlines every function that is not in the baseline inventory.
 func (p *Program) InlineNewHelpers(baseline *Baseline) {
 	for _, pkg := range p.All {
-		in := &inliner{prog: p, pkg: pkg, info: pkg.TypesInfo, cands: map[*types.Func]*ast.FuncDecl{}, remaining: map[*types.Func]int{}}
+		in := &inliner{prog: p, pkg: pkg, info: pkg.TypesInfo, cands: map[*types.Func]*ast.FuncDecl{}, remaining: map[*types.Func]int{}, hasDefer: map[*types.Func]bool{}}
 		in.norm = &normaliser{p: p, pkg: pkg, info: pkg.TypesInfo, pure: map[*types.Func]int{}, in: in}
 		for _, fd := range p.AllFuncDeclsRaw(pkg) {
 			if baseline.HasFunc(pkg.PkgPath + "." + FuncName(fd)) {
@@ -119,7 +121,10 @@ func (in *inliner) inlinable(fd *ast.FuncDecl, obj *types.Func) bool {
 		switch x := n.(type) {
 		case *ast.FuncLit:
 			return false
-		case *ast.DeferStmt, *ast.GoStmt, *ast.LabeledStmt, *ast.SelectStmt:
+		case *ast.DeferStmt:
+			// inlinable only in tail position of the caller (the deferred calls then run at the same moment)
+			in.hasDefer[obj] = true
+		case *ast.GoStmt, *ast.LabeledStmt, *ast.SelectStmt:
 			ok = false
 		case *ast.ReturnStmt:
 			if len(x.Results) == 0 && sig.Results().Len() > 0 {
@@ -415,6 +420,14 @@ func (in *inliner) rewriteBody(fd *ast.FuncDecl) bool {
 	}
 	self, _ := in.info.Defs[fd.Name].(*types.Func)
 	changed := false
+	in.tail = map[ast.Stmt]bool{}
+	if n := len(fd.Body.List); n > 0 {
+		last := fd.Body.List[n-1]
+		in.tail[last] = true
+		if ret, ok := last.(*ast.ReturnStmt); ok && len(ret.Results) == 0 && n > 1 {
+			in.tail[fd.Body.List[n-2]] = true
+		}
+	}
 	// pass 0: a helper called inside a larger expression is given a statement of its own
 	astutil.Apply(fd.Body, nil, func(c *astutil.Cursor) bool {
 		stmt, ok := c.Node().(ast.Stmt)
@@ -522,6 +535,9 @@ func (in *inliner) inlineStmt(stmt ast.Stmt, self *types.Func, cont *ast.IfStmt)
 	}
 	fn, hd, recv := in.calleeOf(call)
 	if hd == nil || fn == self {
+		return nil
+	}
+	if in.hasDefer[fn] && !(kind == "return" || (kind == "expr" && in.tail[stmt])) {
 		return nil
 	}
 	if kind != "return" && singleExpr(hd) != nil {
@@ -870,7 +886,7 @@ func (in *inliner) hoistNested(stmt ast.Stmt, self *types.Func) ast.Stmt {
 		}
 	}
 	sig := fn.Type().(*types.Signature)
-	if sig.Results().Len() != 1 {
+	if sig.Results().Len() != 1 || in.hasDefer[fn] {
 		return nil
 	}
 	in.counter++
